@@ -41,6 +41,10 @@ BOUND_METHOD_VALUES = {"_thread_main": "Thread(target=self._thread_main): body r
 # method names on NON-self objects that are synchronisation primitives: never ignorable
 SYNC_METHOD_NAMES = {"acquire", "release", "wait", "wait_for", "join", "notify", "notify_all", "__enter__", "__exit__", "locked"}
 CONDITION_IGNORED = {"notify": "Condition.notify never blocks", "notify_all": "Condition.notify_all never blocks"}
+# the wake-up socket pair: send/recv on it must be non-blocking (see Translator.check_socketpair)
+PAIR_ATTRS = ("_sockpairR", "_sockpairW")
+PAIR_IO_METHODS = {"send", "sendall", "recv", "recv_into", "sendto", "recvfrom"}
+PAIR_FACTORY = "_socketpair_compat"
 TOPIC_CB = "topic_callback"          # callbacks stored in self._on_message_filtered
 FILTERED_ATTR = "_on_message_filtered"
 FILTERED_IGNORED_METHODS = {"iter_match": "MQTTMatcher.iter_match returns the stored per-topic callbacks (taints the result)"}
@@ -170,6 +174,7 @@ class Translator:
                any(isinstance(s, ast.Attribute) and s.attr in SYNC_METHOD_NAMES for s in ast.walk(fn)):
                 self.info_sync_methods.add(pyname)
         self.check_lock_free(classes)
+        self.pair_nonblocking, self.pair_note = self.check_socketpair()
 
     # -------------------------------------------------------------- helpers outside the two classes must be lock-free
     def check_lock_free(self, classes):
@@ -184,6 +189,58 @@ class Translator:
                         self.problems.append(f"{n.name}: uses .{s.attr} (helper outside the model is not lock-free)")
                     if isinstance(s, ast.With):
                         self.problems.append(f"{n.name}: contains a with statement at line {s.lineno}")
+
+    # -------------------------------------------------------------- wake-up socket pair must be non-blocking
+    def check_socketpair(self):
+        """SYNTACTIC check: `_socketpair_compat` ends with `return (a, b)` (two local names, the only return) and, for
+        each of them, a top-level statement `<name>.setblocking(False)` follows the last top-level assignment of that
+        name, with no other setblocking/settimeout call on it anywhere.  Also every assignment of self._sockpairR/W
+        in Client is `None` or the unpacking of `_socketpair_compat()`.  Anything else: (False, reason) - a send/recv
+        on the pair is then emitted as a Block action (fail closed)."""
+        fn = next((n for n in self.module.body if isinstance(n, ast.FunctionDef) and n.name == PAIR_FACTORY), None)
+        if fn is None:
+            self.problems.append(f"{PAIR_FACTORY}: function not found")
+            return False, "factory not found"
+        returns = [n for n in ast.walk(fn) if isinstance(n, ast.Return)]
+        last = fn.body[-1]
+        if len(returns) != 1 or returns[0] is not last or not isinstance(last.value, ast.Tuple) \
+                or len(last.value.elts) != 2 or not all(isinstance(x, ast.Name) for x in last.value.elts):
+            self.problems.append(f"{PAIR_FACTORY}: shape not recognised (expected a single final `return (a, b)`)")
+            return False, "shape not recognised"
+        for nm in [x.id for x in last.value.elts]:
+            assigned_at, set_at = None, None
+            for i, st in enumerate(fn.body):
+                tg = []
+                if isinstance(st, ast.Assign):
+                    for t in st.targets:
+                        tg += [x.id for x in ast.walk(t) if isinstance(x, ast.Name)]
+                if nm in tg:
+                    assigned_at = i
+                if isinstance(st, ast.Expr) and ast.unparse(st.value) == f"{nm}.setblocking(False)":
+                    set_at = i
+            others = [n for n in ast.walk(fn) if isinstance(n, ast.Call) and isinstance(n.func, ast.Attribute)
+                      and n.func.attr in ("setblocking", "settimeout") and isinstance(n.func.value, ast.Name)
+                      and n.func.value.id == nm and ast.unparse(n) != f"{nm}.setblocking(False)"]
+            nested_assign = [n for n in ast.walk(fn) if isinstance(n, (ast.Assign, ast.AugAssign, ast.NamedExpr, ast.For, ast.With))
+                             and n not in fn.body and nm in [x.id for x in ast.walk(n) if isinstance(x, ast.Name) and isinstance(x.ctx, ast.Store)]]
+            if assigned_at is None or set_at is None or set_at < assigned_at or others or nested_assign:
+                return False, f"returned socket `{nm}` is not made non-blocking by a top-level `{nm}.setblocking(False)` after its assignment"
+        # where the pair is stored
+        for n in ast.walk(self.client.cdef):
+            if isinstance(n, (ast.Assign, ast.AnnAssign)):
+                targets = n.targets if isinstance(n, ast.Assign) else [n.target]
+                val = n.value
+                for t in targets:
+                    names = [x.attr for x in ast.walk(t) if _is_self_attr(x) and x.attr in PAIR_ATTRS]
+                    if not names or val is None:
+                        continue
+                    src = ast.unparse(val)
+                    ok = src == "None" or (src == f"{PAIR_FACTORY}()" and isinstance(t, ast.Tuple)
+                                           and [ast.unparse(e) for e in t.elts] == [f"self.{a}" for a in PAIR_ATTRS])
+                    if not ok:
+                        self.problems.append(f"Client: line {n.lineno}: wake-up pair assigned from something else: {ast.unparse(n)[:80]}")
+                        return False, "pair assigned from an unrecognised expression"
+        return True, "both sockets returned by _socketpair_compat are set non-blocking (syntactic check)"
 
     def note(self, what):
         self.ignored_used[what] = self.ignored_used.get(what, 0) + 1
@@ -545,6 +602,11 @@ class Translator:
                         self.prob(self.where, e, "synchronisation call on a value obtained through self")
                     self.note("method call on a value returned by a method/property of self")
                     return done(recv)
+                if first in PAIR_ATTRS and m in PAIR_IO_METHODS:
+                    if _is_self_attr(f.value) and self.pair_nonblocking:
+                        self.note(f"self.{first}.{m}: Send/Recv on the wake-up pair, non-blocking: {self.pair_note}")
+                        return done(recv)
+                    return done(recv + [("Block", "wakeup_pipe_io")])
                 if first in DATA_ATTRS:
                     if m in SYNC_METHOD_NAMES:
                         self.prob(self.where, e, "synchronisation primitive on a data attribute")
@@ -684,6 +746,9 @@ def generate(repo):
     for k in sorted(tr.ignored_used):
         L.append(f"     {tr.ignored_used[k]:4d} x {k}".replace("(*", "( *").replace("*)", "* )"))
     L.append("   Data attributes on the allow-list: " + ", ".join(sorted(DATA_ATTRS)))
+    L.append("   Wake-up socket pair (self._sockpairR/_sockpairW send/recv): " +
+             ("treated as non-blocking - " if tr.pair_nonblocking else "treated as BLOCKING (Block action) - ") + tr.pair_note +
+             ". This is a syntactic check of _socketpair_compat's AST, not a semantic one.")
     L.append("*)")
     L.append("From Coq Require Import String.")
     L.append("From PahoV Require Import Conc.LockGraph.")
